@@ -88,7 +88,9 @@ class CLikeCompilerArgs(arglist.CompilerArgs):
             group_start = -1
             group_end = -1
             for i, each in enumerate(new):
-                if not GROUP_FLAGS.search(each):
+                # An -I, -D, -U, -isystem or -L argument is never a library,
+                # whatever its value ends in (-DEXT=.so, -Iinclude.a).
+                if each.startswith(self.dedup2_prefixes) or not GROUP_FLAGS.search(each):
                     continue
                 group_end = i
                 if group_start < 0:
